@@ -220,6 +220,15 @@ def s4_s5(ctx, rep):
                           for _, _, at, its in sites_) and len([d for d in local_defs(f, name) if not isinstance(d, tuple)]) == 1:
             valid = name
     if valid is None:
+        raw = [x for x in walk_shallow(f.node, include_lambda=True) if isinstance(x, ast.Call) and (
+            (isinstance(x.func, ast.Name) and x.func.id in ("sorted", "min", "max")) or fn_name(x) == "sort")
+            and any(isinstance(y, ast.Name) and y.id == f.params[0] for a_ in (x.args[:1] or [x.func]) for y in ast.walk(a_))]
+        if raw:
+            # no list of valid entries at all, and the rung itself is ordered: NaN takes part in the comparisons
+            rep.bad("S4", "taint", "get_top_list: every ordering operation runs over the NaN-filtered entries", f, raw[0],
+                    f"`{U(raw[0])[:80]}` orders the rung as it is - the NaN of failed trials is compared with metric values (a sort key that "
+                    "puts a NaN flag first is reversed together with the metric for mode 'max': failed trials then rank first)")
+            return
         raise AnchorError("get_top_list: NaN-filtered list not found")
     ORDERING = {"sorted", "sort", "min", "max", "argsort", "argmin", "argmax", "nanargmin", "nanargmax", "nsmallest", "nlargest", "partition", "argpartition"}
 
